@@ -19,6 +19,7 @@ type Clause struct {
 	Label    string   // "" if unlabelled
 	Props    []string // properties this clause belongs to (from the label C01.xyz and extra tags)
 	NotProps []string // "-Cxx" tags: the clause is not part of the contract in these property modes
+	ThoroughOnly bool // tag "thorough": the clause is part of the contract in the thorough tier only (slow obligation)
 	Expr     *SExpr
 	Text     string
 	Kind     string // requires|ensures|invariant|assume
@@ -229,6 +230,8 @@ func (cs *Contracts) parseFile(p *Program, pkgPath, file, src string) error {
 						c.Props = append(c.Props, t)
 					} else if strings.HasPrefix(t, "-") && propRe.MatchString(t[1:]) {
 						c.NotProps = append(c.NotProps, t[1:])
+					} else if t == "thorough" {
+						c.ThoroughOnly = true
 					}
 				}
 			}
@@ -855,7 +858,13 @@ func resolveQualified(p *Program, fromPkg, q string) string {
 	return fromPkg + "." + q
 }
 
+// currentTier is set by the check command; clauses tagged "thorough" are skipped (neither proved nor assumed) elsewhere.
+var currentTier = "quick"
+
 func (c *Clause) activeFor(prop string) bool {
+	if c.ThoroughOnly && currentTier != "thorough" {
+		return false
+	}
 	for _, p := range c.NotProps {
 		if p == prop {
 			return false
